@@ -69,6 +69,17 @@ def run_property(pid, cfg, replay=None, evidence_dir=None, write_evidence=True):
             return 1 if hit else 0
         return rc
     except AnalysisError as e:
+        from acv import common
+        rep = common.MAIN_REPORT
+        if rep is not None and rep.pid == pid and rep.findings and not replay:
+            # rules that ran before the error found something: report it (exit 1 if it is new), then the error
+            meta = getattr(mod, 'META', {})
+            try:
+                return finish(rep, level='other', explanation=meta.get('explanation', ''), assumptions=meta.get('assumptions', ()),
+                              decided=meta.get('decided', ''), not_decided=meta.get('not_decided', ''), evidence_dir=evidence_dir,
+                              write_evidence=write_evidence, incomplete=str(e))
+            except AnalysisError:
+                pass
         print('ANALYSIS-ERROR: property=%s %s' % (pid, e))
         return 2
     except Exception:
